@@ -58,6 +58,12 @@ def scenarios(env, offset):
     add("Unit*Unit", UNITOPS | DIMOPS | PFX, lambda n: (lambda a=Meter ** (7000 + offset + n), b=Foot ** (7000 + offset + n): a * b), wide=True)
     add("Unit/Unit", UNITOPS | DIMOPS | PFX, lambda n: (lambda a=Meter ** (8000 + offset + n), b=Second ** (8000 + offset + n): a / b), wide=True)
     add("Unit.root", UNITOPS | DIMOPS | PFX, lambda n: (lambda a=Foot ** (2 * (9000 + offset + n)): a.root(2)), wide=True)
+    # a unit whose factors have all cancelled while a prefix survives ((k*m)/m, k*One): the placeholder One is its only factor
+    add("(Prefix*Unit)/Unit", UNITOPS | DIMOPS | PFX, lambda n: (lambda pm=Prefix(19, 20000 + offset + n) * Meter: pm / Meter), wide=True)
+    add("Prefix*One", UNITOPS | PFX, lambda n: (lambda p=Prefix(19, 21000 + offset + n): p * m.One), wide=True)
+    add("(Prefix*Unit)/Unit vs Prefix*One", UNITOPS | DIMOPS | PFX, lambda n: (lambda pm=Prefix(19, 22000 + offset + n) * Meter: pm / Meter),
+        mixed=lambda n, k: [(lambda pm=Prefix(19, 22000 + offset + n) * Meter: pm / Meter), (lambda p=Prefix(19, 22000 + offset + n): p * m.One)][:k] if k == 2 else
+        [(lambda pm=Prefix(19, 22000 + offset + n) * Meter: pm / Meter), (lambda p=Prefix(19, 22000 + offset + n): p * m.One), (lambda pm=Prefix(19, 22000 + offset + n) * Second: pm / Second)], wide=True)
     add("Prefix*Unit", UNIT | PFX | {"Prefix.__mul__"}, lambda n: (lambda p=Prefix(17, 10000 + offset + n): p * Meter), wide=True)
     add("Unit.as_ratio", UNITOPS, lambda n: (lambda a=Meter ** (11000 + offset + n) / Second ** (11000 + offset + n): a.as_ratio()[1]), wide=True)
     add("Unit.quantify", UNITOPS | PFX, lambda n: (lambda a=Prefix(19, 3) * Foot ** (12000 + offset + n): a.quantify().unit), wide=True)
